@@ -1,4 +1,4 @@
-(* GENERATED from Tree/InvProofsCopy.v by work/c03gen/gen.py: the same proof over NoOrphanP (no RootsOnly), see Tree/InvEBase.v *)
+(* GENERATED from Tree/InvProofsCopy.v by tools/c03_gen_invE.py: the same proof over NoOrphanP (no RootsOnly), see Tree/InvEBase.v *)
 (* Tree/InvProofsCopy.v — C03 proofs: deep_copy only allocates (a consistent detached tree), register_subtree only
    touches the index, create_copied_sub_element(_at). *)
 From Coq Require Import PeanoNat Arith.
